@@ -864,6 +864,39 @@ func foundNotRejected(fn *ssa.Function, m ssa.Value, also ...ssa.Instruction) []
 // header — do without the sink? (Leaving the loop is not a skip here: use loopSkip when an
 // element of a collection must not be passed over on the way out either.)
 func iterationSkips(fn *ssa.Function, sink ssa.Instruction) (ssa.Instruction, bool) {
+	return iterationSkipsAny(fn, sink)
+}
+
+// iterationSkipsAny: as iterationSkips, with several sinks (passing any of them counts).
+func iterationSkipsAny(fn *ssa.Function, sinks ...ssa.Instruction) (ssa.Instruction, bool) {
+	if len(sinks) == 0 {
+		return nil, false
+	}
+	isSink := func(x ssa.Instruction) bool {
+		for _, k := range sinks {
+			if k == x {
+				return true
+			}
+		}
+		return false
+	}
+	h := loopHeaders(fn)[sinks[0].Block()]
+	if h == nil {
+		return nil, false
+	}
+	body := loopBody(h)
+	for _, s := range h.Succs {
+		if !body[s] || s == h {
+			continue
+		}
+		if _, found := existsPath(pathQuery{from: point{s, 0}, avoid: isSink, edgeOK: notErrorEdge, stopAt: func(x ssa.Instruction) bool { return !body[x.Block()] }, target: func(x ssa.Instruction) bool { return !isSink(x) && x.Block() == h }}); found {
+			return s.Instrs[0], true
+		}
+	}
+	return nil, false
+}
+
+func iterationSkipsOld(fn *ssa.Function, sink ssa.Instruction) (ssa.Instruction, bool) {
 	h := loopHeaders(fn)[sink.Block()]
 	if h == nil {
 		return nil, false
